@@ -137,6 +137,50 @@ func (c *Ctx) fingerprints() map[string]AnchorFP {
 		return out
 	}
 	out := map[string]AnchorFP{}
+	// unexported struct fields: type, and the functions that touch them
+	touch := map[*types.Var]map[string]bool{}
+	for _, f := range c.AllFuncs() {
+		if c.IsTestFile(f.Pos()) {
+			continue
+		}
+		top := owner(f)
+		Instrs(f, func(in ssa.Instruction) {
+			var fld *types.Var
+			switch x := in.(type) {
+			case *ssa.FieldAddr:
+				fld = FieldOf(x)
+			case *ssa.Field:
+				fld = FieldOf(x)
+			}
+			if fld != nil && !fld.Exported() {
+				if touch[fld] == nil {
+					touch[fld] = map[string]bool{}
+				}
+				touch[fld][top.String()] = true
+			}
+		})
+	}
+	for _, p := range c.Pkgs {
+		rel := strings.TrimPrefix(strings.TrimPrefix(p.PkgPath, ModPath), "/")
+		sc := p.Types.Scope()
+		for _, n := range sc.Names() {
+			tn, ok := sc.Lookup(n).(*types.TypeName)
+			if !ok || c.IsTestFile(tn.Pos()) {
+				continue
+			}
+			st, ok := tn.Type().Underlying().(*types.Struct)
+			if !ok {
+				continue
+			}
+			for i := 0; i < st.NumFields(); i++ {
+				fld := st.Field(i)
+				if fld.Exported() || fld.Embedded() {
+					continue
+				}
+				out["F|"+rel+"|"+n+"."+fld.Name()] = AnchorFP{Sig: types.TypeString(fld.Type(), func(p *types.Package) string { return p.Path() }), Callees: keys(touch[fld])}
+			}
+		}
+	}
 	var all []string
 	for _, f := range c.AllFuncs() {
 		if !c.IsTestFile(f.Pos()) {
@@ -218,7 +262,7 @@ func (c *Ctx) anchorFallback(rel, name string) *types.Func {
 	// the renamed function keeps its receiver type: compare signatures including it
 	best, bestScore, ties := "", 0.0, 0
 	for key, fp := range anchorCurrent {
-		if key == "_all" || !strings.HasPrefix(key, rel+"|") || fp.Sig != want.Sig {
+		if key == "_all" || strings.HasPrefix(key, "F|") || !strings.HasPrefix(key, rel+"|") || fp.Sig != want.Sig {
 			continue
 		}
 		if _, known := anchorTable[key]; known {
@@ -311,7 +355,7 @@ func (c *Ctx) ResolveAllAnchors() {
 	c.anchorFallback("", "\x00") // loads the table
 	var missing []string
 	for key := range anchorTable {
-		if key == "_all" {
+		if key == "_all" || strings.HasPrefix(key, "F|") {
 			continue
 		}
 		i := strings.Index(key, "|")
@@ -327,5 +371,142 @@ func (c *Ctx) ResolveAllAnchors() {
 	for _, key := range missing {
 		i := strings.Index(key, "|")
 		c.anchorFallback(key[:i], key[i+1:])
+	}
+	if anchorCurrent == nil {
+		// computed only when some recorded field name is absent (cheap test first)
+		need := false
+		for key := range anchorTable {
+			if strings.HasPrefix(key, "F|") && !c.fieldExists(key) {
+				need = true
+				break
+			}
+		}
+		if !need {
+			return
+		}
+		anchorCurrent = c.fingerprints()
+	}
+	c.resolveFields()
+}
+
+func (c *Ctx) fieldExists(key string) bool {
+	parts := strings.SplitN(key, "|", 3)
+	p := c.Pkg(parts[1])
+	if p == nil {
+		return true
+	}
+	tf := parts[2]
+	tn, _ := p.Types.Scope().Lookup(tf[:strings.Index(tf, ".")]).(*types.TypeName)
+	if tn == nil {
+		return true // the type itself is gone: not a field rename
+	}
+	st, _ := tn.Type().Underlying().(*types.Struct)
+	for i := 0; st != nil && i < st.NumFields(); i++ {
+		if st.Field(i).Name() == tf[strings.Index(tf, ".")+1:] {
+			return true
+		}
+	}
+	return false
+}
+
+// fieldAlias: unexported struct fields re-identified after a rename.
+var fieldAlias = map[*types.Var]string{}
+
+// FieldName: the name a struct field is known by to the rules.
+func FieldName(v *types.Var) string {
+	if v == nil {
+		return ""
+	}
+	if a, ok := fieldAlias[v]; ok {
+		return a
+	}
+	return v.Name()
+}
+
+// resolveFields re-identifies recorded fields that are missing from their
+// struct: among the fields of the same struct with the recorded type that are
+// not themselves recorded names, the one whose set of accessing functions is
+// closest (a single candidate is taken as is).
+func (c *Ctx) resolveFields() {
+	cur := anchorCurrent
+	recorded, current := map[string]bool{}, map[string]bool{}
+	for _, x := range anchorTable["_all"].Callees {
+		recorded[x] = true
+	}
+	for _, x := range cur["_all"].Callees {
+		current[x] = true
+	}
+	var missing []string
+	for key := range anchorTable {
+		if strings.HasPrefix(key, "F|") {
+			if _, still := cur[key]; !still {
+				missing = append(missing, key)
+			}
+		}
+	}
+	sort.Strings(missing)
+	taken := map[string]bool{}
+	for _, key := range missing {
+		want := anchorTable[key]
+		owner := key[:strings.LastIndex(key, ".")+1] // F|rel|Type.
+		best, bestScore, n := "", -1.0, 0
+		for k2, fp := range cur {
+			if !strings.HasPrefix(k2, owner) || fp.Sig != want.Sig || taken[k2] {
+				continue
+			}
+			if _, known := anchorTable[k2]; known {
+				continue
+			}
+			inter, union := 0, 0
+			got := map[string]bool{}
+			for _, x := range fp.Callees {
+				if !current[x] || recorded[x] {
+					got[x] = true
+				}
+			}
+			union = len(got)
+			for _, x := range want.Callees {
+				if recorded[x] && !current[x] {
+					continue
+				}
+				if got[x] {
+					inter++
+				} else {
+					union++
+				}
+			}
+			score := 1.0
+			if union > 0 {
+				score = float64(inter) / float64(union)
+			}
+			n++
+			if score > bestScore {
+				best, bestScore = k2, score
+			}
+		}
+		if best == "" || (n > 1 && bestScore < 0.34) {
+			continue
+		}
+		taken[best] = true
+		// bind the *types.Var
+		parts := strings.SplitN(best, "|", 3)
+		rel, tf := parts[1], parts[2]
+		p := c.Pkg(rel)
+		if p == nil {
+			continue
+		}
+		tn, _ := p.Types.Scope().Lookup(tf[:strings.Index(tf, ".")]).(*types.TypeName)
+		if tn == nil {
+			continue
+		}
+		st, _ := tn.Type().Underlying().(*types.Struct)
+		for i := 0; st != nil && i < st.NumFields(); i++ {
+			if st.Field(i).Name() == tf[strings.Index(tf, ".")+1:] {
+				fieldAlias[st.Field(i)] = key[strings.LastIndex(key, ".")+1:]
+				if os.Getenv("VDEBUG") != "" {
+					fmt.Fprintln(os.Stderr, "FIELD-ALIAS", best, "->", key, bestScore)
+				}
+			}
+		}
 	}
 }
